@@ -3,7 +3,7 @@ from props._common import COMMON_TB
 PROP = dict(
     title="The interning set is a sound, order-preserving id map",
     lean_module="AbraProofs.Properties.C37",
-    required_theorems=["C37_step_refines", "C37_refines", "C37_no_ub", "C37_ptrs_valid", "C37_buffers_owned",
+    required_theorems=["C37_step_refines", "C37_refines", "C37_no_ub", "C37_ptrs_valid", "C37_buffers_owned", "C37_sets_share_no_buffer",
                        "C37_contents_nodup", "C37_ids_stable", "C37_derived_clone_dangles", "C37_repaired_clone_ok"],
     harness_bin="c37",
     mismatch_is_violation=False,
@@ -12,7 +12,7 @@ PROP = dict(
          "on a full buffer; clear then re-insert the last value; clone, clear, re-insert; repeated inserts across a buffer switch), then (quick) 400 x <=40 ops / (thorough) 6000 x <=160 ops seeded histories per element type "
          "(insert 45%, try_get_id 10%, contains 5%, index incl. out of range 8%, len, iter, layout dump, clone, drop, clear, "
          "into_iter, new/default; Debug at every iter, get_id at every lookup, IndexMut write-back of an equal value at every third index; the scenario 'clone h; drop or clear h; get/insert/iter/index on the clone' is forced with "
-         "probability 1/14 per step); values from a pool of 37 per type restricted per history to 2..37 so that duplicates "
+         "probability 1/14 per step); values from a pool of 37 strings / 34 integers restricted per history to a random prefix of at least 2 so that duplicates "
          "are frequent; one model request per history; compared: every answer, and at layout points (len/cap) of every "
          "buffer in iteration order, (buffer, index) of every id_to_ptr entry and the map size. distinct = distinct "
          "histories; non-trivial = the history contains a clone",
